@@ -14,7 +14,7 @@ from sv.props import c01
 
 PROPERTY = "C04"
 GEN = []
-PROPS = ["ScoresVerif/Props/C04.lean"]
+PROPS = ["ScoresVerif/Props/C04.lean", "ScoresVerif/Props/C04Reduce.lean", "ScoresVerif/Props/C04Axis.lean"]
 DRIVER_DEPS = ["ScoresVerif.Driver.C01"]
 LEVEL = "other"
 EXPLANATION = ("Kernel-checked Lean theorems show that, in the model, per-case kernels commute with any permutation of the labelled "
